@@ -683,3 +683,47 @@ func (s *LSpec) Shorten() *LSpec {
 	}
 	return n
 }
+
+// CoverageSpecs enumerates the product output:file form × output:package form × state of
+// the target package (absent, user package named like the directory, user package with another
+// name) for one interface converter in a nested directory, next to a variables block in a
+// second package. Systematic counterpart of DrawLayout.
+func CoverageSpecs() []*LSpec {
+	var out []*LSpec
+	files := []string{"", "./gen/x.go", "../upx/out.go", "@cwd/shared/out.go", "@cwd/svc/conv/local/z.go", "./same_x_gen.go", "sub/dir/x_out.go"}
+	for _, of := range files {
+		for pk := 0; pk < 4; pk++ {
+			for us := 0; us < 3; us++ {
+				if strings.HasPrefix(of, "./same_") && (pk != 0 || us != 0) {
+					continue
+				}
+				s := &LSpec{UserPkgs: map[string]string{}, PkgNames: map[string]string{"svc/conv": "conv", "a": "a"}}
+				c := LConv{Dir: "svc/conv", File: "conv.go", Kind: "interface", Name: "Xa", OutFile: of, Version: 1}
+				d := path.Dir(s.Predict(&c).Path)
+				if d == "." {
+					d = ""
+				}
+				switch pk {
+				case 1:
+					c.OutPkg = importPath(d)
+				case 2:
+					c.OutPkg = importPath(d) + ":namedxa"
+				case 3:
+					c.OutPkg = ":onlyxa"
+				}
+				switch us {
+				case 1:
+					s.UserPkgs[d] = normPkgName(d)
+				case 2:
+					s.UserPkgs[d] = "weirdname"
+				}
+				if _, declaring := s.PkgNames[d]; declaring {
+					delete(s.UserPkgs, d)
+				}
+				s.Convs = []LConv{c, {Dir: "a", File: "vars.go", Kind: "variables", Name: "Vb", Version: 1}}
+				out = append(out, s)
+			}
+		}
+	}
+	return out
+}
